@@ -11,7 +11,7 @@ RULE = ('HIST histories on UDF configurations (alone and with Joliet/Rock Ridge/
         'from the volume recognition sequence and the anchors; non-trivial: >= 3 accepted edits and >= 1 write; distinct = '
         'distinct model shape fingerprints')
 BUDGET = {'quick': 40, 'thorough': 900}
-PROBES = ['images_decoded', 'fid_area_gt_1_sector', 'ucs2_name', 'latin1_name', 'symlink_decoded', 'after_restart_edit']
+PROBES = ['images_decoded', 'fid_area_gt_1_sector', 'ucs2_name', 'latin1_name', 'symlink_decoded', 'after_restart_edit', 'modified_in_place_then_decoded']
 ASSUMPTIONS = ['isosim/dec_udf.py implements the ECMA-167/UDF 2.60 subset summarised in DESIGN.md Appendix A; own CRC-CCITT']
 
 
@@ -65,6 +65,11 @@ class C10(H.Oracle):
         if ctx.model.generation > 0:
             ctx.probes['after_restart_edit'] += 1
         check_image(ctx, bytes(disk.data))
+
+    def on_end(self, ctx):
+        # one file with a UDF name is modified in place on the final image; its File Entry (information length,
+        # allocation descriptors, tag) must follow
+        H.inplace_epilogue(ctx, 'udf', check_image)
 
 
 def generate(seed, tier='quick'):
